@@ -1,3 +1,4 @@
+import Mrpro.Lemmas.WaveletLayoutL
 import Mrpro.Lemmas.PcaL
 import Mrpro.Lemmas.SrcL
 import Mrpro.Model.OpsND
@@ -161,5 +162,35 @@ theorem pca_dominant (h : n ≤ c) (U : Matrix (Fin c) (Fin c) 𝕜) (hU : Uᴴ 
     M.frobSq (M.pcaMat h U * X) = ∑ i : Fin n, lam (Fin.castLE h i) ∧ M.frobSq (N * X) ≤ M.frobSq (M.pcaMat h U * X) :=
   ⟨M.pca_data_energy h U hU lam X hC, M.pca_data_optimal h U hU lam hpos hanti X hC N hN⟩
 end PCA
+
+/-! ### `WaveletOp` bookkeeping (`M.Wavelet.*`): predicted coefficient shapes, format conversions, stacking — the transform itself is a
+parameter that returns blocks with the PyWavelets lengths -/
+
+/-- the list `coefficients_shape` has one approximation entry and `2^d − 1` detail entries per level -/
+theorem wavelet_coefficientsShape_length (L : ℕ) (domain : List ℕ) (level : ℕ) :
+    (M.Wavelet.coefficientsShape L domain level).length = if level = 0 then 1 else 1 + level * (2 ^ domain.length - 1) :=
+  M.Wavelet.coefficientsShape_length L domain level
+
+/-- the predicted block sizes are exactly the sizes of a transform that follows the PyWavelets length rule, and the per-level shape
+of the model is the one computed by the current source (translated on this run) -/
+theorem wavelet_shapes_match (L : ℕ) (domain : List ℕ) (level : ℕ) :
+    M.Wavelet.formatND (M.Wavelet.nestedSizes L domain level) = (M.Wavelet.coefficientsShape L domain level).map M.Wavelet.shapeSize :=
+  M.Wavelet.formatND_nestedSizes L domain level
+theorem wavelet_levelShape_src (L : ℕ) (hL : L % 2 = 0) (hL0 : 0 < L) (shape : List ℕ) :
+    M.Wavelet.levelShape L shape = shape.map (fun (n : ℕ) => (M.Src.wavelet_level_shape (n : ℤ) (L : ℤ)).toNat) :=
+  M.Wavelet.levelShape_eq_src_map L hL hL0 shape
+
+/-- forward's bookkeeping (format, stack) is inverted exactly by adjoint's (unstack by the predicted shapes, undo format), in both
+directions — for every dimension, wavelet length, level and coefficient values -/
+theorem wavelet_bookkeeping_roundtrip {K : Type} (L : ℕ) (domain : List ℕ) (level : ℕ) (c : List K × List (List (List K)))
+    (hd : domain ≠ []) (hc : (c.1.length, c.2.map (fun t => t.map List.length)) = M.Wavelet.nestedSizes L domain level) :
+    (M.Wavelet.unstack (M.Wavelet.coefficientsShape L domain level) (M.Wavelet.stack (M.Wavelet.formatND c))).bind
+        (M.Wavelet.undoFormatND (M.Wavelet.nDirections domain.length)) = some c :=
+  M.Wavelet.bookkeeping_roundtrip_pywt L domain level c hd hc
+theorem wavelet_bookkeeping_roundtrip_adjoint {K : Type} (L : ℕ) (domain : List ℕ) (level : ℕ) (v : List K) (bs : List (List K))
+    (c : List K × List (List (List K))) (h1 : M.Wavelet.unstack (M.Wavelet.coefficientsShape L domain level) v = some bs)
+    (h2 : M.Wavelet.undoFormatND (M.Wavelet.nDirections domain.length) bs = some c) :
+    M.Wavelet.stack (M.Wavelet.formatND c) = v :=
+  M.Wavelet.bookkeeping_roundtrip_adjoint L domain level v bs c h1 h2
 
 end C09
